@@ -75,3 +75,47 @@ def specSloAll : List (List (Endpoint α)) → List (Option (Pick α)) → Bool
   | _, _ => false
 
 end Routing
+
+namespace Routing
+variable {α : Type} [DecidableEq α]
+
+/-- `response_args` for any request class: a request class without return service never names a destination other
+    than the empty back-channel one; otherwise `specArgs` for the endpoint list of the requester's return service under
+    the peer descriptor (no destination at all counts as a refusal). -/
+def specArgsK (truthy : α → Bool) (soap empty : α) (selfIsSp : Bool) (kind : ReqKind)
+    (lookup : Bool → Svc → Option (List (Endpoint α))) (arg : List α) (reqBinding : Option α)
+    (preferred : Svc → List α) (url index : Option α) (out : Option (Pick α)) : Bool :=
+  match kindService kind with
+  | none =>
+    match out with
+    | some (.ok b d) => decide (arg = [soap]) && decide (b = soap) && decide (d = empty)
+    | _ => true
+  | some s =>
+    specArgs truthy soap empty (lookup (kindDescrIdp selfIsSp kind) s) arg reqBinding (preferred s) url index
+      (out.getD .refused)
+
+/-- `_sso_location` with or without entity id: a location used is registered for the binding at the named entity; with
+    no entity named there is a target provider only when the metadata holds exactly one identity provider, and the
+    location must then be registered there (several or no providers: nothing may be addressed). -/
+def specLocAny (truthy : α → Bool) (entity : Option α) (named : Option (List (Endpoint α)))
+    (idps : List (List (Endpoint α))) (b : α) (out : Option α) : Bool :=
+  match entity.filter truthy with
+  | some _ => specLoc named b out
+  | none => match out with
+    | none => true
+    | some d => match idps with
+      | [l] => specLoc (some l) b (some d)
+      | _ => false
+
+/-- Histories: every answer meets `spec` for the metadata installed by the last reload the entity reported as
+    successful (initially: the metadata it was constructed with). -/
+def specHist {μ ρ ο : Type} (spec : μ → ρ → ο → Bool) :
+    Option μ → μ → List (HStep μ ρ) → List (HOut ο) → Bool
+  | _, _, [], [] => true
+  | _, l, .write m :: r, os => specHist spec m l r os
+  | some m, l, .reload :: r, .reloaded ok :: os => specHist spec (some m) (if ok then m else l) r os
+  | none, l, .reload :: r, .reloaded _ :: os => specHist spec none l r os
+  | d, l, .ask q :: r, .ans o :: os => spec l q o && specHist spec d l r os
+  | _, _, _, _ => false
+
+end Routing
